@@ -126,7 +126,7 @@ def gen_nested(rng, nparams):
     constructors over local, upstream, builtin and parameter leaves: 7..13 type nodes, so the
     shapes straddle the SLG size limit (10)."""
     def inner():
-        c = rng.choice(["tuple2", "tuple3", "F2", "F1", "U2", "U1", "leaf", "leaf"])
+        c = rng.choice(["tuple2", "tuple3", "tuple3", "F2", "F2", "U2", "U1", "leaf"])
         if c == "tuple2":
             return ("TTuple", [gen_leaf(rng, nparams) for _ in range(2)])
         if c == "tuple3":
@@ -135,7 +135,7 @@ def gen_nested(rng, nparams):
             return gen_leaf(rng, nparams)
         a = {"F2": 5, "F1": 4, "U2": 7, "U1": 3}[c]
         return ("TAdt", a, [gen_leaf(rng, nparams) for _ in range(ADTS[a][1])])
-    c = rng.choice(["tuple3", "tuple3", "tuple2", "F2", "U2"])
+    c = rng.choice(["tuple3", "tuple3", "tuple3", "tuple2", "F2", "U2"])
     if c == "tuple3":
         return ("TTuple", [inner() for _ in range(3)])
     if c == "tuple2":
